@@ -254,4 +254,12 @@ def run(ck):
             if len(ck.violations) >= 3:
                 break
     asmk.k_check(ck, progs, impl, mod, icases, syms=True)
+    # the known case: a probe directly behind a definition inside a macro body sees the table before that definition
+    ktext = "@macro show, 1, vv\n@db vv\n@endmacro\n@macro tt, 0\n@defn kk1, 1\nshow @isdef kk1\n@endmacro\ntt\n"
+    kr = AsmResult(run_cases(harness, [asm_case("z80", text=ktext)], shards=1)[0])
+    ck.evaluations += 1
+    if kr.canon() == "OK 00":
+        ck.known_hit("generator-after-definition-reads-old-state", "`@defn kk1, 1` / `show @isdef kk1` in a macro body gives 00, outside a macro 01")
+    elif kr.canon() != "OK 01":
+        ck.violation("`@defn kk1, 1` / `show @isdef kk1` in a macro body gives %s" % kr.canon(), {"mode": "asm", "arch": "z80", "source": ktext, "expected": "OK 01"})
     return ck
